@@ -108,6 +108,15 @@ def report(prop,tier,seed,repo,meta,results,extras,known,lock,t0,verbose):
     if samp:
       evals+=samp['evaluations']
       if r.get('bounded'): bounded.append(dict(function=r['key'],bound=r['bounded'],evaluations=samp['evaluations']))
+    if r.get('is_standin') and r['ok']:
+      sd=r['standin']; evals+=sd['evaluations']
+      bounded.append(dict(function=r['key'],bound=sd['bound'],evaluations=sd['evaluations'],failures=len(sd['failures'])))
+      for f in sd['failures'][:8]:
+        path=os.path.join(outdir,f"{prop}-{safe(r['key']+'-'+f['args'].get('design',''))}.py")
+        payload=dict(property=prop,obligation=f"standin::{r['key']}",contract=r['key'],repo=repo); payload.update(f['custom'])
+        replay_mod.write_replay(path,payload,VERIF)
+        violations.append((f"standin::{r['key']}",path,False,dict(args=f['args'],native=dict(failed=f['failed']))))
+      continue
     if not r['ok']:
       # out of reach / extraction failure: the executable contract over its stated finite domain is the bounded stand-in
       sd=r.get('standin') or samp or {}
@@ -196,7 +205,7 @@ def report(prop,tier,seed,repo,meta,results,extras,known,lock,t0,verbose):
   for u in undecided: print(f"UNDECIDED obligation={u}")
   for e in errors: print(f"CHECKER-ERROR {e}")
   for k,a,b in fewer: errors.append('x'); print(f"CHECKER-ERROR {k}: {a} obligations generated, {b} in obligations.lock for unchanged text")
-  if n_obl==0 and not violations: errors.append('x'); print("CHECKER-ERROR zero obligations generated")
+  if n_obl==0 and not violations and not (meta.get('bounded_only') and bounded): errors.append('x'); print("CHECKER-ERROR zero obligations generated")
   if cover_gaps and meta.get('require_cover',True):
     print("CHECKER-ERROR cases never reached by the native sampler (vacuity guard): "+', '.join(cover_gaps[:8])); errors.append('x')
   wall=time.time()-t0
